@@ -83,7 +83,7 @@ func (e *Env) builtin(x *ast.CallExpr, name string, rt types.Type) Value {
 func (e *Env) explicitPanic(x *ast.CallExpr) {
 	if e.fc != nil && e.fc.MayPanic {
 		e.assign("$panic", SBool, True)
-		e.jump(e.exitB)
+		e.leave()
 		e.dead()
 		return
 	}
